@@ -168,7 +168,11 @@ def check(plan, res):
             cands = [en for en in entries.values() if en['owner'] == w[1] and en['fn'] == w[2] and en['idx'] < idx and en['removed'] is None
                      and not any(f[0] < idx for f in en['fires'])]
             if any(en['ambig'] for en in cands):
-                continue    # an earlier "-1" may have been "removed with one second overdue": nothing is known about that entry any more
+                # an earlier "-1" may have been "removed with one second overdue": nothing is known about that entry any more,
+                # so a removal by name may have taken any of the candidates
+                if w[0] == 'RCN' and ret != -1:
+                    for en in cands: en['ambig'] = True
+                continue
             if len(cands) == 1:
                 en = cands[0]
                 if ret == -1 and en['due'] - tc == -1:
